@@ -3,6 +3,8 @@ C11 — the synthesised inverse circuit prepares exactly the given stabilizer st
 
 Correspondence: `inverse_circuit`, `canonical_form`, `clifford_from_stabilizer`, `get_clifford_tableau_from_graph` are run on
 the real implementation and on the Lean model (`stab.inv`, `stab.canon`, `stab.cliff`) and compared exactly (tableau and gate list).
+Completeness ("always ends in |0..0>", graphiq 74abae4) is a Lean theorem for every n (`C11.inverse_circuit_complete`); the run still
+evaluates it on every input, on the implementation's result and on the model's (`zero=`), as a regression.
 Direct oracle: (a) the tableau returned by `inverse_circuit` is |0..0> with all signs +; (b) the returned gate list, executed by the
 *verified* gate semantics of the model (`stab.runtab rev=1`, gates proved to be Pauli-group automorphisms with the textbook generator
 images) backwards from |0..0>, yields a valid Clifford tableau whose signed stabilizer group equals the input's (compared with an
@@ -19,7 +21,7 @@ LEVEL = "proof"
 TRUSTED_BASE = [
     "Lean 4.33 kernel",
     "hand-written model GraphiqModel/Model/StabTableau.lean tied to stabilizer.py/rep_conversion.py by this correspondence run",
-    "completeness of the six synthesis blocks (they always end in |0..0>) is not a theorem: the hypothesis `isZero` is evaluated by the model on every input",
+    "completeness of the synthesis IS a theorem (C11.inverse_circuit_complete / inverse_circuit_ends_in_zero, all n): it speaks about the model; `isZero` is still evaluated on the implementation's result (oracle a) and on the model's (`zero=`) for every input as a regression of the correspondence",
     "harness, line protocol, independent Python canonicaliser and dense simulator",
 ]
 ASSUMPTIONS = ["inputs are stabilizer tableaux of pure states (n independent commuting generators); dependent generators are the malformed stream"]
@@ -29,6 +31,71 @@ ASSUMPTIONS = ["inputs are stabilizer tableaux of pure states (n independent com
 D42_WITNESS = "n=5 x=1011001100000010000000000 z=0010000011001101001001110 r=11010"
 
 DENSE_GATE = {"H": tu.H, "P": tu.S, "P_dag": tu.S.conj().T, "X": tu.X, "Y": tu.Y, "Z": tu.Z}
+
+
+class LineCov:
+    """Line coverage of the *real* functions (no hook in /repo: a `sys.settrace` collector that follows only the given code objects).
+    `hits` = executed line numbers of the last `with` block per function; `total` accumulates over the run.  It is used to record which
+    branches of `inverse_circuit` / `canonical_form` / `inner_product` the generated inputs reach (evidence `branches`) and to list
+    the lines no input reached."""
+
+    def __init__(self, *funcs):
+        import inspect
+
+        self.codes = {f.__code__: f.__name__ for f in funcs}
+        self.src = {}
+        for f in funcs:
+            lines, first = inspect.getsourcelines(f)
+            self.src[f.__code__] = (lines, first)
+        self.total = {c: set() for c in self.codes}
+        self.hits = {c: set() for c in self.codes}
+
+    def __enter__(self):
+        import sys
+
+        self.prev = sys.gettrace()
+        self.hits = {c: set() for c in self.codes}
+        hits, codes = self.hits, self.codes
+
+        def local(frame, event, arg):
+            if event == "line":
+                hits[frame.f_code].add(frame.f_lineno)
+            return local
+
+        def glob(frame, event, arg):
+            return local if frame.f_code in codes else None
+
+        sys.settrace(glob)
+        return self
+
+    def __exit__(self, *exc):
+        import sys
+
+        sys.settrace(self.prev)
+        for c, h in self.hits.items():
+            self.total[c] |= h
+        return False
+
+    def label(self, code, ln):
+        lines, first = self.src[code]
+        return f"{self.codes[code]}:+{ln - first}:{lines[ln - first].strip()[:56]}"
+
+    def labels(self):
+        return [self.label(c, ln) for c, h in self.hits.items() for ln in sorted(h)]
+
+    def unreached(self):
+        out = []
+        for c in self.codes:
+            allc = {ln for (_, _, ln) in c.co_lines() if ln is not None and ln != c.co_firstlineno}
+            lines, first = self.src[c]
+            for ln in sorted(allc - self.total[c]):
+                txt = lines[ln - first].strip()
+                if txt and not txt.startswith(('"""', "#", ":", "'")):
+                    out.append(self.label(c, ln))
+        return out
+
+
+COV = None  # created in run(): LineCov over inverse_circuit and canonical_form of the implementation under test
 
 
 def dense_run(rho, n, circ):
@@ -47,6 +114,31 @@ def dense_run(rho, n, circ):
     return rho
 
 
+
+def low_x_rank_state(rng, n):
+    """a state whose X block has low rank (few Hadamards, then only CNOT/CZ/P): many generators are pure Z strings, so the
+    `z_list` branch of the first Hadamard block of inverse_circuit — filtered candidates, `z_list[-1]`, the clearing row sums
+    and the Hadamard decision, i.e. the code repaired in graphiq 74abae4 — runs on most columns (generic random states almost
+    never reach it); Z pivots may sit on X-pivot columns (Bell pair XX, ZZ)"""
+    from graphiq.backends.stabilizer.clifford_tableau import CliffordTableau
+    from graphiq.backends.stabilizer.functions import transformation as tr
+
+    t = CliffordTableau(n)
+    for q in rng.sample(range(n), rng.randrange(0, n // 2 + 1)):
+        t = tr.hadamard_gate(t, q)
+    for _ in range(3 * n + 3):
+        k = rng.randrange(3 if n > 1 else 1)
+        a = rng.randrange(n)
+        if k == 0:
+            t = tr.phase_gate(t, a)
+        else:
+            b = rng.randrange(n - 1)
+            b = b if b < a else b + 1
+            t = tr.cnot_gate(t, a, b) if k == 1 else tr.control_z_gate(t, a, b)
+    t.phase = np.array([rng.randrange(2) for _ in range(2 * n)], dtype=int)
+    return su.regauge_clifford(t, rng)
+
+
 def check_one(res, drv, st, tag, pending):
     """st: StabilizerTableau (valid input). Queues the model requests; returns nothing"""
     from graphiq.backends.stabilizer.functions import rep_conversion as rc
@@ -58,7 +150,12 @@ def check_one(res, drv, st, tag, pending):
     res.evaluations += 1
     res.count("sizes", f"n={n}" if n <= 6 else ("n<=20" if n <= 20 else "n>20"))
     try:
-        tab0, circ = sfs.inverse_circuit(st.copy())
+        if COV is not None and n <= 24:
+            with COV:
+                tab0, circ = sfs.inverse_circuit(st.copy())
+            res.branch(COV.labels())
+        else:
+            tab0, circ = sfs.inverse_circuit(st.copy())
         err = None
     except Exception as e:  # noqa: BLE001
         err = err_class(e)
@@ -127,6 +224,10 @@ def flush(res, drv, pending):
         else:
             if su.reply_stab_tuple(r_inv) != su.stab_tuple(tab0) or r_inv.get("circ") != su.circ_token(circ):
                 res.exact_break("stab.inv", input=inp, impl=su.stab_args(tab0) + " circ=" + su.circ_token(circ), model=r_inv["_raw"][:1500])
+            if r_inv.get("zero") != "1":
+                # the compiled model did not end in |0..0> on a valid state: contradicts the theorem `C11.inverse_circuit_complete`
+                # (so the compiled code and the kernel definitions differ, or the input was not a valid state)
+                res.exact_break("stab.inv:model-not-zero", input=inp, impl="valid state", model=r_inv["_raw"][:600])
         # oracle (b): verified semantics run the implementation's gate list backwards from |0..0>
         if r_run["_status"] != "ok" or r_run.get("valid") != "1":
             fails.append(("inverse_circuit:reverse-run-invalid", "running the returned gate list backwards (verified semantics) fails or gives an invalid tableau",
@@ -246,6 +347,10 @@ def run(ctx, budget=1.0):
     drv = Driver()
     rng = ctx.rng
     pending = []
+    global COV
+    from graphiq.backends.stabilizer.functions import stabilizer as sfs_cov
+
+    COV = LineCov(sfs_cov.inverse_circuit, sfs_cov.canonical_form)
     # corpus first: the witness of the repaired D42 (regression input, no special treatment)
     check_one(res, drv, stab_of_args(D42_WITNESS), "corpus:D42", pending)
     flush(res, drv, pending)
@@ -273,6 +378,12 @@ def run(ctx, budget=1.0):
         if len(pending) >= 40:
             flush(res, drv, pending)
     flush(res, drv, pending)
+    # low X rank: the z_list branch of the first Hadamard block (the code of the D42 repair) on most columns
+    for n in [rng.randrange(2, 10) for _ in range(int((120 if ctx.quick else 1500) * budget))] + [rng.randrange(10, 25) for _ in range(int((15 if ctx.quick else 100) * budget))]:
+        check_one(res, drv, low_x_rank_state(rng, n).to_stabilizer(), "low-x-rank", pending)
+        if len(pending) >= 40:
+            flush(res, drv, pending)
+    flush(res, drv, pending)
     # graphs
     graphs = [g for n in range(1, 5 if ctx.quick else 6) for g in all_graphs(n)]
     if not ctx.quick:
@@ -294,6 +405,11 @@ def run(ctx, budget=1.0):
     res.exhaustive = not ctx.quick
     res.notes.append(f"exhaustive over all stabilizer states for n<={nmax_ex} (x{regs} generating sets each) and all graphs on <= {4 if ctx.quick else 5} vertices")
     res.extra["driver_lines"] = drv.n_lines
+    unreached = COV.unreached()
+    res.extra["unreached_lines"] = unreached
+    res.notes.append("line coverage of the real inverse_circuit/canonical_form (sys.settrace, n<=24): per-line hit counts in `branches`; "
+                     + ("every line was reached" if not unreached else "lines no generated input reached: " + " | ".join(unreached)))
+    COV = None
     drv.close()
     return res
 
